@@ -354,7 +354,7 @@ def run_check(prop, tier, seed, nshards=None, verbose=True):
     replay_paths = []
     if merged['violations']:
         code = 1
-        rdir = os.path.join(env.VERIF, 'replays', prop)
+        rdir = os.path.join(env.OUT, 'replays', prop)
         os.makedirs(rdir, exist_ok=True)
         for sig, w in list(merged['violations'].items())[:MAX_VIOLATION_LINES]:
             path = os.path.join(rdir, f'{h64(sig):016x}.json')
@@ -415,8 +415,8 @@ def run_check(prop, tier, seed, nshards=None, verbose=True):
         'coverage': cov, 'assumptions': spec.get('assumptions', []), 'wall_s': round(wall, 2),
         'violations': merged['violation_count'],
     }
-    os.makedirs(os.path.join(env.VERIF, 'evidence'), exist_ok=True)
-    with open(os.path.join(env.VERIF, 'evidence', f'{prop}.json'), 'w') as f:
+    os.makedirs(os.path.join(env.OUT, 'evidence'), exist_ok=True)
+    with open(os.path.join(env.OUT, 'evidence', f'{prop}.json'), 'w') as f:
         json.dump(ev, f, indent=1, sort_keys=False)
         f.write('\n')
     if verbose:
